@@ -123,13 +123,24 @@ BP(tags, fields, t) == [tags |-> tags, fields |-> fields, t |-> t]
 (* GroupInfo of a point: the dimension tags only (a missing one reads ""). *)
 GroupTags(m) == IF m.mk = "b" THEN m.tags ELSE [d \in SeqSet(m.dims) |-> GetOr(m.tags, d, "")]
 
+(* Time alignment.  Go's Time.Truncate(d) / Time.Round(d) work on the time   *)
+(* elapsed since Go's ZERO time (January 1, year 1), not since the Unix       *)
+(* epoch: "t is on the d grid" means t.Truncate(d) = t.  Model time k stands  *)
+(* for epoch + k units, so a descriptor that aligns to d carries zr = (epoch  *)
+(* - zero time) mod d, computed by the driver with Go's time package (0 for   *)
+(* every d that divides the epoch offset, e.g. 1s, 2s, 7s; 8 for 13s).  The   *)
+(* Unix epoch is on another grid for every d that does not divide             *)
+(* 62135596800 s (7s, 11s, 13s, 7m, 1w ...).                                   *)
+OnGrid(t, d, zr) == (t + zr) % d = 0
+TruncT(t, d, zr) == IF d = 0 THEN t ELSE t - ((t + zr) % d)
+(* time.Round rounds half up.                                               *)
+RoundT(t, d, zr) == IF d = 0 THEN t ELSE ((2 * (t + zr) + d) \div (2 * d)) * d - zr
+
 (* What the source hands to the first edge.                                 *)
 FromSource(s, in) ==
     IF s.batch THEN MkBatch(in.name, in.tags, SortNames(DOMAIN in.tags), in.byName, in.tmax, in.pts)
-    ELSE MkPoint(in.name, in.tags, in.fields, in.t, s.dims, s.byName)
+    ELSE MkPoint(in.name, in.tags, in.fields, TruncT(in.t, s.trunc, s.tzr), s.dims, s.byName)   \* from().truncate(d)
 
-(* time.Round(d) relative to an epoch that is a multiple of d (half up).    *)
-RoundT(t, d) == IF d = 0 THEN t ELSE ((2 * t + d) \div (2 * d)) * d
 
 R(st, out) == [st |-> st, out |-> out, amb |-> FALSE, kf |-> {}, err |-> 0]
 RE(st, out, e) == [st |-> st, out |-> out, amb |-> FALSE, kf |-> {}, err |-> e]
@@ -238,10 +249,10 @@ ShiftOp(n, st, m) ==
 SampleOp(n, st, m) ==
     IF m.mk = "p"
     THEN LET c == GetOr(st, m.group, 0)
-             keep == IF n.d # 0 THEN m.t % n.d = 0 ELSE c % n.n = 0
+             keep == IF n.d # 0 THEN OnGrid(m.t, n.d, n.zr) ELSE c % n.n = 0
          IN R(Put(st, m.group, c + 1), IF keep THEN <<m>> ELSE <<>>)
     ELSE LET idx == SelectSeq([i \in DOMAIN m.pts |-> i],
-                              LAMBDA i : IF n.d # 0 THEN m.pts[i].t % n.d = 0 ELSE (i - 1) % n.n = 0)
+                              LAMBDA i : IF n.d # 0 THEN OnGrid(m.pts[i].t, n.d, n.zr) ELSE (i - 1) % n.n = 0)
          IN R(st, <<[m EXCEPT !.pts = [j \in DOMAIN idx |-> m.pts[idx[j]]]]>>)
 
 (* ---- derivative: (current - previous) / (elapsed / unit) per group; the  *)
@@ -327,7 +338,7 @@ FlatFields(n, pts) ==
 
 FlattenOp(n, st, m) ==
     IF m.mk = "p"
-    THEN LET t == RoundT(m.t, n.tol)
+    THEN LET t == RoundT(m.t, n.tol, n.zr)
              g == m.group
              b == IF g \in DOMAIN st THEN st[g]
                   ELSE [time |-> t, name |-> m.name, gtags |-> GroupTags(m), dims |-> m.dims, byName |-> m.byName, pts |-> <<>>]
@@ -339,7 +350,7 @@ FlattenOp(n, st, m) ==
                  ELSE [R(Put(st, g, [b EXCEPT !.time = IF b.time > t THEN b.time ELSE t, !.pts = <<q>>]),
                          <<MkPoint(b.name, b.gtags, ff.f, b.time, b.dims, b.byName)>>) EXCEPT !.amb = ff.amb, !.err = ff.err]
     ELSE LET step(s, q0) ==
-                 LET t == RoundT(q0.t, n.tol)  q == BP(q0.tags, q0.fields, t) IN
+                 LET t == RoundT(q0.t, n.tol, n.zr)  q == BP(q0.tags, q0.fields, t) IN
                  IF t = s.time THEN [s EXCEPT !.pts = Append(@, q)]
                  ELSE IF Len(s.pts) = 0 THEN [s EXCEPT !.time = t, !.pts = <<q>>]
                  ELSE LET ff == FlatFields(n, s.pts)
@@ -394,7 +405,7 @@ CombineAll(n, b, pts) ==
 
 CombineOp(n, st, m) ==
     IF m.mk = "p"
-    THEN LET t == RoundT(m.t, n.tol)
+    THEN LET t == RoundT(m.t, n.tol, n.zr)
              g == m.group
              b == IF g \in DOMAIN st THEN st[g]
                   ELSE [time |-> None, name |-> m.name, dims |-> m.dims, byName |-> m.byName, pts |-> <<>>]
@@ -404,7 +415,7 @@ CombineOp(n, st, m) ==
                  IN RE(Put(st, g, [b EXCEPT !.time = t, !.pts = <<q>>]), c.out, c.err)
     ELSE LET b == [name |-> m.name, dims |-> m.dims, byName |-> m.byName]
              step(s, q0) ==
-                 LET t == RoundT(q0.t, n.tol)  q == BP(q0.tags, q0.fields, t) IN
+                 LET t == RoundT(q0.t, n.tol, n.zr)  q == BP(q0.tags, q0.fields, t) IN
                  IF t = s.time THEN [s EXCEPT !.pts = Append(@, q)]
                  ELSE LET c == CombineAll(n, b, s.pts)
                       IN [time |-> t, pts |-> <<q>>, out |-> s.out \o c.out, err |-> s.err + c.err]
